@@ -78,7 +78,7 @@ def run_c_client(v, behs, ev):
                 base[name] = (997 * slots[name]) % 60000
             rounds = [1, 0] if (fkind == "null" and fk == i + 1) else [0]
             for nr in rounds:
-                arm = 1 if (fkind == "cbfail" and fk == i + 1) else 0
+                arm = (1 if fkind == "cbfail" else 2) if (fkind in ("cbfail", "cbfail_count") and fk == i + 1) else 0
                 args = ""
                 if op == "level":
                     args = " 3"
